@@ -1,11 +1,12 @@
 (** C07  Decoding untrusted bytes is safe: no panic, bounded memory and work.
     Property theorems only; definitions in Cost.v, proofs in CostFacts.v / CostLoops.v /
-    CostBasic.v / CostBounds.v / CostMain.v; the tight bounds in CostTight.v / CostTightMain.v. *)
+    CostBasic.v / CostBounds.v / CostMain.v; the tight bounds in CostTight.v / CostTightMain.v;
+    the conversions into the final collection in CostConv.v / CostConvMain.v. *)
 From Coq Require Import String.
 From Coq Require Import List NArith.
 From Coq.Strings Require Import Byte.
 From Borsh Require Import Bytes Result Ty Ser De Entry Cost CostFacts CostLoops CostBasic CostBounds CostMain
-     CostTight CostTightMain.
+     CostTight CostTightMain CostConv CostConvMain.
 Import ListNotations.
 Local Open Scope N_scope.
 
@@ -293,4 +294,128 @@ Example C07_ex_success :
          ([x02; x00; x00; x00] ++ [x03; x00; x00; x00; x01; x02; x03] ++ [x02; x00; x00; x00; x01; x02])) =
   {| max_request := 48; total_requested := 53; elems := 2; max_explicit := 48; conv_units := 0; conv_bytes := 0 |} /\
   S0 1 0 ex_sz vec_vec_u8 + S1 1 0 ex_sz vec_vec_u8 * 17 = 1717.
+Proof. vm_compute. repeat split; reflexivity. Qed.
+
+(** * Conversions (CostConv.v / CostConvMain.v)
+    The bounds above count the requests of the code in borsh/src/de: for [HashMap<K,V>],
+    [BTreeMap], [BTreeSet], [LinkedList], [Box<T>], [Rc<[T]>], [Bytes] ... that is the
+    intermediate [Vec]; the final collection is built by a constructor outside borsh
+    ([collect()], [Box::new], [Rc::from], [Bytes::from]), recorded as [EConv n e] (n values
+    of e bytes each).  These theorems bound what is handed to those constructors:
+    [conv_units] = sum of n, [conv_bytes] = sum of n * e.
+
+    Relative to the element decodes: every unit converted by a collection was decoded as an
+    element first.  Not element decodes: the bytes of [Bytes], [BTreeSet<u8>], [Box<[u8]>],
+    [Box<str>] (the byte loop decodes no element; they are input bytes: slope CW1) and the
+    single value of [Box::new] / [Rc::new] (constant CW0; slope CW1 inside a collection).
+    So the statement "conv_units <= elems + C(t)" is FALSE in general ([Bytes] of n bytes:
+    conv_units = n, elems = 0; [Vec<Box<Box<u64>>>]: conv_units = 2 * elems); the true one
+    has the slope CW1 t per input byte, and CW0 t = CW1 t = 0 - that is conv_units <= elems -
+    for every type without these ([HashMap<String, Vec<u8>>], [BTreeSet<u32>], ...).
+
+    What is NOT said: how many bytes the foreign constructor (B-tree nodes, the buckets of a
+    hash table, the [Rc] header, list nodes) requests per converted byte.  That factor is
+    std's / hashbrown's / indexmap's; it is observed by the allocator measurements of the
+    check, which allows 12 * converted bytes + 48 per unit. *)
+Theorem C07_conv_units_elems :
+  forall (sz : ty -> N) (c : cfg) (t : ty) (bs : bytes),
+    sz_ok sz -> fam t = true ->
+    conv_units (cost_of (fst (cdec sz c t bs))) <=
+    elems (cost_of (fst (cdec sz c t bs))) + CW0 sz t + CW1 sz t * len bs.
+Proof. exact cdec_conv_units_elems. Qed.
+Print Assumptions C07_conv_units_elems.
+
+(** bytes: an element decode is worth at most CBG t = the largest size_of among the element
+    types of the converting collections inside t *)
+Theorem C07_conv_bytes_elems :
+  forall (sz : ty -> N) (c : cfg) (t : ty) (bs : bytes),
+    sz_ok sz -> fam t = true ->
+    conv_bytes (cost_of (fst (cdec sz c t bs))) <=
+    CBG sz t * elems (cost_of (fst (cdec sz c t bs))) + CBW0 sz t + CBW1 sz t * len bs.
+Proof. exact cdec_conv_bytes_elems. Qed.
+Print Assumptions C07_conv_bytes_elems.
+
+(** In terms of the input length alone (with [C07_work_tight]):
+    CU0 = F0 0 1 + CW0, CU1 = S1 0 1 + CW1;  CB0 = CBG * F0 0 1 + CBW0, CB1 = CBG * S1 0 1 + CBW1. *)
+Theorem C07_conv_units :
+  forall (sz : ty -> N) (c : cfg) (t : ty) (bs : bytes),
+    sz_ok sz -> fam t = true ->
+    conv_units (cost_of (fst (cdec sz c t bs))) <= CU0 sz t + CU1 sz t * len bs.
+Proof. exact cdec_conv_units. Qed.
+Print Assumptions C07_conv_units.
+
+Theorem C07_conv_bytes :
+  forall (sz : ty -> N) (c : cfg) (t : ty) (bs : bytes),
+    sz_ok sz -> fam t = true ->
+    conv_bytes (cost_of (fst (cdec sz c t bs))) <= CB0 sz t + CB1 sz t * len bs.
+Proof. exact cdec_conv_bytes. Qed.
+Print Assumptions C07_conv_bytes.
+
+(** an accepted input: linear in the bytes CONSUMED *)
+Theorem C07_conv_success :
+  forall (sz : ty -> N) (c : cfg) (t : ty) (bs : bytes) (v : val) (rest : bytes),
+    sz_ok sz -> fam t = true -> snd (cdec sz c t bs) = Ok (v, rest) ->
+    (len rest <= len bs /\
+     conv_units (cost_of (fst (cdec sz c t bs))) <=
+     elems (cost_of (fst (cdec sz c t bs))) + VS0 qu sz t + CW1 sz t * (len bs - len rest)) /\
+    (len rest <= len bs /\
+     conv_bytes (cost_of (fst (cdec sz c t bs))) <=
+     CBG sz t * elems (cost_of (fst (cdec sz c t bs))) + VS0 qb sz t + CBW1 sz t * (len bs - len rest)).
+Proof. exact cdec_conv_success. Qed.
+Print Assumptions C07_conv_success.
+
+(** the constants; sizes: (u8, u16) 4 bytes, other tuples 48, the rest as [ex_sz] *)
+Definition u16 := TPrim (PInt false W2).
+Definition u64 := TPrim (PInt false W8).
+Definition ex_sz3 (t : ty) : N :=
+  match t with
+  | TProd _ [TPrim (PInt _ W1); TPrim (PInt _ W2)] => 4
+  | TProd _ _ => 48
+  | _ => ex_sz t
+  end.
+Definition hashmap_string_vec_u8 := TSeq SHashMap (TProd PTuple [TText XString; TSeq SVec u8]).
+Definition btreeset_u32 := TSeq SBTreeSet u32.
+Definition box_u64 := TWrap WBox u64.
+Definition linkedlist_u8_u16 := TSeq SList (TProd PTuple [u8; u16]).
+Definition conv_consts (t : ty) :=
+  ((CW0 ex_sz3 t, CW1 ex_sz3 t), (CU0 ex_sz3 t, CU1 ex_sz3 t),
+   (CBG ex_sz3 t, CBW0 ex_sz3 t, CBW1 ex_sz3 t), (CB0 ex_sz3 t, CB1 ex_sz3 t)).
+
+(** ((CW0, CW1), (CU0, CU1), (CBG, CBW0, CBW1), (CB0, CB1)) *)
+Example C07_ex_conv_constants :
+  conv_consts hashmap_string_vec_u8 = ((0, 0), (1, 1), (48, 0, 0), (48, 48)) /\
+  conv_consts btreeset_u32 = ((0, 0), (1, 1), (4, 0, 0), (4, 4)) /\
+  conv_consts box_u64 = ((1, 0), (1, 0), (0, 8, 0), (8, 0)) /\
+  conv_consts linkedlist_u8_u16 = ((0, 0), (1, 1), (4, 0, 0), (4, 4)) /\
+  (* the byte loop decodes no element: slope 1 per input byte *)
+  conv_consts (TText XBytes) = ((0, 1), (0, 1), (0, 0, 1), (0, 1)) /\
+  conv_consts (TSeq SBTreeSet u8) = ((0, 1), (0, 1), (1, 0, 1), (0, 1)) /\
+  conv_consts (TWrap WBox (TText XStr)) = ((0, 1), (0, 1), (0, 0, 1), (0, 1)) /\
+  (* Rc<[u32]>: the slice's elements pay *)
+  conv_consts (TWrap WRc (TSeq SSlice u32)) = ((0, 0), (1, 1), (4, 0, 0), (4, 4)) /\
+  (* Vec<Box<u64>>: one Box::new per element, paid by the element's wire bytes *)
+  conv_consts (TSeq SVec box_u64) = ((0, 1), (1, 2), (0, 0, 8), (0, 8)) /\
+  conv_consts (TSeq SBTreeSet btreeset_u32) = ((0, 0), (2, 2), (24, 0, 0), (48, 48)) /\
+  (* Vec<[Box<u64>; 3]>: a failing decode may have boxed two values of the failing array *)
+  conv_consts (TSeq SVec (TArray 3 box_u64)) = ((2, 3), (6, 7), (0, 16, 24), (16, 24)).
+Proof. vm_compute. repeat split; reflexivity. Qed.
+
+(** a valid BTreeSet<u32> of 3 elements: conv_units = elems = 3, conv_bytes = 3 * 4 *)
+Example C07_ex_conv_btreeset :
+  dec_cost ex_sz3 ex_cfg btreeset_u32
+    ([x03; x00; x00; x00] ++ [x01; x00; x00; x00] ++ [x02; x00; x00; x00] ++ [x05; x00; x00; x00]) =
+  (Ok (VL [VN 1; VN 2; VN 5], []),
+   {| max_request := 12; total_requested := 12; elems := 3; max_explicit := 12; conv_units := 3; conv_bytes := 12 |}).
+Proof. vm_compute. reflexivity. Qed.
+
+(** [Bytes] of 3 bytes: conv_units = 3 with elems = 0 (why "conv_units <= elems + C" is false);
+    Rc<[u32]> of 2 elements: conv_units = elems = 2; HashMap<String, Vec<u8>> with one entry *)
+Example C07_ex_conv_more :
+  snd (dec_cost ex_sz3 ex_cfg (TText XBytes) ([x03; x00; x00; x00] ++ [x01; x02; x03])) =
+  {| max_request := 3; total_requested := 3; elems := 0; max_explicit := 3; conv_units := 3; conv_bytes := 3 |} /\
+  snd (dec_cost ex_sz3 ex_cfg (TWrap WRc (TSeq SSlice u32)) ([x02; x00; x00; x00] ++ [x01; x00; x00; x00] ++ [x02; x00; x00; x00])) =
+  {| max_request := 8; total_requested := 8; elems := 2; max_explicit := 8; conv_units := 2; conv_bytes := 8 |} /\
+  snd (dec_cost ex_sz3 ex_cfg hashmap_string_vec_u8
+         ([x01; x00; x00; x00] ++ [x01; x00; x00; x00; x61] ++ [x02; x00; x00; x00; x01; x02])) =
+  {| max_request := 48; total_requested := 51; elems := 1; max_explicit := 48; conv_units := 1; conv_bytes := 48 |}.
 Proof. vm_compute. repeat split; reflexivity. Qed.
